@@ -55,6 +55,9 @@ func VerifCheckArgType(n int) {
 				rel = "arg-strict-subset-of-param"
 			}
 		}
+		if verifIn(base.VkUntyped, dk) {
+			rel = "param-contains-untyped"
+		}
 		cls := "C08/fits-but-rejected/" + shape + "/" + rel
 		if len(ak) > 1 && len(dk) > 1 && rel == "arg-strict-subset-of-param" {
 			cls = "C08/fits-but-rejected/union-arg-strict-subset-of-union-param"
